@@ -358,8 +358,8 @@ V("c18-handler-removed", "C18", "M", LIO, '''    try:
     except KeyError as e:
         raise FileNotFoundError(f"Cannot open {path}") from e
 ''', '''    data = mapper[path]
-''', "mapper")
-V("c18-raise-keyerror", "C18", "M", VIO, '        raise FileNotFoundError(f"Cannot open {path}") from e', '        raise KeyError(f"Cannot open {path}") from e', "mapper")
+''', "missing")
+V("c18-raise-keyerror", "C18", "M", VIO, '        raise FileNotFoundError(f"Cannot open {path}") from e', '        raise KeyError(f"Cannot open {path}") from e', "missing")
 V("c18-size-check-removed", "C18", "M", SIO, '''    if n_elements * element_size != len(content):
         raise ValueError(
             f"sizes mismatch: chunksize is {n_elements * element_size}"
